@@ -129,31 +129,40 @@ fn c14_systematic() -> Vec<Layout> {
         }
         if b >= 16 {
             // self-overlapping range list, non-array (bits 2..=3 named twice) and array form
-            let so = Field { name: "x".into(), kw_bit: false, list: true, ranges: vec![Rng::new(0, 3), Rng::new(2, 5)], array: None, ty: uty(8), access: Access::RW, arg_order: 0, opt_path: 0, huge: None };
+            let so = Field { name: "x".into(), kw_bit: false, list: true, ranges: vec![Rng::new(0, 3), Rng::new(2, 5)], array: None, ty: uty(8), access: Access::RW, arg_order: 0, opt_path: 0, huge: None, zero_pad: false };
             v.push(lay(b, vec![so.clone()]));
             let mut soa = so.clone();
             soa.array = Some(ArrayDecl { count: 2, stride: Some(8), colon: false });
             v.push(lay(b, vec![soa]));
             // the same ranges without the overlap
-            let ok = Field { name: "x".into(), kw_bit: false, list: true, ranges: vec![Rng::new(0, 3), Rng::new(4, 7)], array: None, ty: uty(8), access: Access::RW, arg_order: 0, opt_path: 0, huge: None };
+            let ok = Field { name: "x".into(), kw_bit: false, list: true, ranges: vec![Rng::new(0, 3), Rng::new(4, 7)], array: None, ty: uty(8), access: Access::RW, arg_order: 0, opt_path: 0, huge: None, zero_pad: false };
             v.push(lay(b, vec![ok.clone()]));
             // list array whose elements collide through the stride (element 1 re-uses bits of element 0)
-            let coll = Field { name: "x".into(), kw_bit: false, list: true, ranges: vec![Rng::new(0, 1), Rng::new(4, 5)], array: Some(ArrayDecl { count: 2, stride: Some(4), colon: false }), ty: uty(4), access: Access::RW, arg_order: 0, opt_path: 0, huge: None };
+            let coll = Field { name: "x".into(), kw_bit: false, list: true, ranges: vec![Rng::new(0, 1), Rng::new(4, 5)], array: Some(ArrayDecl { count: 2, stride: Some(4), colon: false }), ty: uty(4), access: Access::RW, arg_order: 0, opt_path: 0, huge: None, zero_pad: false };
             v.push(lay(b, vec![coll.clone()]));
             let mut inter = coll.clone();
             inter.array = Some(ArrayDecl { count: 2, stride: Some(2), colon: false });
             v.push(lay(b, vec![inter])); // interleaves without collision
             // a read-only field whose list names bits twice, next to complete writable coverage: it is not
             // writable, so it must not take the builder away
-            let ro_so = Field { name: "ro".into(), kw_bit: false, list: true, ranges: vec![Rng::new(0, 3), Rng::new(0, 3)], array: None, ty: uty(8), access: Access::R, arg_order: 0, opt_path: 0, huge: None };
+            let ro_so = Field { name: "ro".into(), kw_bit: false, list: true, ranges: vec![Rng::new(0, 3), Rng::new(0, 3)], array: None, ty: uty(8), access: Access::R, arg_order: 0, opt_path: 0, huge: None, zero_pad: false };
             v.push(lay(b, vec![fld("all", 0, b, uty(b), Access::RW), ro_so.clone()]));
             v.push(lay(b, vec![ro_so.clone(), fld("all", 0, b, uty(b), Access::RW)]));
-            let mut ro_arr = Field { name: "roa".into(), kw_bit: false, list: true, ranges: vec![Rng::new(0, 1), Rng::new(4, 5)], array: Some(ArrayDecl { count: 2, stride: Some(4), colon: false }), ty: uty(4), access: Access::None, arg_order: 0, opt_path: 0, huge: None };
+            let mut ro_arr = Field { name: "roa".into(), kw_bit: false, list: true, ranges: vec![Rng::new(0, 1), Rng::new(4, 5)], array: Some(ArrayDecl { count: 2, stride: Some(4), colon: false }), ty: uty(4), access: Access::None, arg_order: 0, opt_path: 0, huge: None, zero_pad: false };
             v.push(lay(b, vec![fld("all", 0, b, uty(b), Access::W), ro_arr.clone()]));
             ro_arr.access = Access::R;
             v.push(lay(b, vec![ro_arr, fld("lo", 0, b / 2, uty(b / 2), Access::RW), fld("hi", b / 2, b - b / 2, uty(b - b / 2), Access::RW)]));
+            // overlapping ranges that are not neighbours in the list; elements colliding around a middle element
+            let na = Field { name: "x".into(), kw_bit: false, list: true, ranges: vec![Rng::new(0, 3), Rng::new(8, 11), Rng::new(2, 5)], array: None, ty: uty(12), access: Access::RW, arg_order: 0, opt_path: 0, huge: None, zero_pad: false };
+            v.push(lay(b, vec![na]));
+            let nb = Field { name: "x".into(), kw_bit: false, list: true, ranges: vec![Rng::bit(1), Rng::bit(3), Rng::bit(5), Rng::bit(1)], array: None, ty: uty(4), access: Access::RW, arg_order: 0, opt_path: 0, huge: None, zero_pad: false };
+            v.push(lay(b, vec![nb]));
+            if b >= 24 {
+                let nc = Field { name: "x".into(), kw_bit: false, list: true, ranges: vec![Rng::new(0, 1), Rng::new(8, 9)], array: Some(ArrayDecl { count: 3, stride: Some(4), colon: false }), ty: uty(4), access: Access::RW, arg_order: 0, opt_path: 0, huge: None, zero_pad: false };
+                v.push(lay(b, vec![nc]));
+            }
             // single repeated bit
-            let rep = Field { name: "x".into(), kw_bit: false, list: true, ranges: vec![Rng::bit(3), Rng::new(0, 1), Rng::bit(3)], array: None, ty: uty(4), access: Access::RW, arg_order: 0, opt_path: 0, huge: None };
+            let rep = Field { name: "x".into(), kw_bit: false, list: true, ranges: vec![Rng::bit(3), Rng::new(0, 1), Rng::bit(3)], array: None, ty: uty(4), access: Access::RW, arg_order: 0, opt_path: 0, huge: None, zero_pad: false };
             v.push(lay(b, vec![rep]));
         }
     }
@@ -161,7 +170,7 @@ fn c14_systematic() -> Vec<Layout> {
     let mut out = Vec::new();
     for l in v {
         let mut d = l.clone();
-        d.default = Some(DefaultDecl { value: 0, named_const: false, radix: 10 });
+        d.default = Some(DefaultDecl { value: 0, named_const: false, radix: 10, const_name: None });
         out.push(l);
         out.push(d);
     }
@@ -295,7 +304,7 @@ pub fn run_c14(rc: &RunCtx) -> Outcome {
                     continue;
                 }
                 let kind = if p.name == "builder-exists" {
-                    let overlap = !builder_expected(&Layout { default: Some(DefaultDecl { value: 0, named_const: false, radix: 10 }), ..l.clone() });
+                    let overlap = !builder_expected(&Layout { default: Some(DefaultDecl { value: 0, named_const: false, radix: 10, const_name: None }), ..l.clone() });
                     let self_overlap = l.fields.iter().any(|f| f.access.writable() && !rules::ranges_disjoint(f));
                     if p.must_compile {
                         "builder-missing".to_string()
